@@ -1,5 +1,5 @@
 (** * C12: all per-module correspondence / property checks in one place. *)
-From Irismod Require Genesis.Record Genesis.Htlc Genesis.Mt Genesis.Coinswap Genesis.Token Genesis.Nft Genesis.Random Genesis.Farm Genesis.Oracle.
+From Irismod Require Genesis.Record Genesis.Htlc Genesis.Mt Genesis.Coinswap Genesis.Token Genesis.Nft Genesis.Random Genesis.Farm Genesis.Oracle Genesis.Service.
 
 Definition check_record := Genesis.Record.check_record.
 Definition check_htlc := Genesis.Htlc.check_htlc.
@@ -10,3 +10,4 @@ Definition check_nft := Genesis.Nft.check_nft.
 Definition check_random := Genesis.Random.check_random.
 Definition check_farm := Genesis.Farm.check_farm.
 Definition check_oracle := Genesis.Oracle.check_oracle.
+Definition check_service := Genesis.Service.check_service.
